@@ -121,3 +121,73 @@ def r_C17i(root):
                     out.append(Finding(pr, "C17.i", rel, q, " ".join(ast.unparse(n).split())[:100], "a model is given an existing repository object (%s) instead of one of its own: the set of files visible from a model (local_models) is then shared with whoever owns that object and grows with every load" % ast.unparse(n.value)[:60], witness="global_repository=True: load a file that imports lib, then a file that uses lib's names without importing it"))
     if inst < 3: raise AnalysisError("model repository stores: only %d found (metamodel callback, GlobalModelRepository.pre_ref_resolution_callback, ImportURI.load_models expected)" % inst)
     return inst, out
+
+def r_C17jkl(root):
+    """C17.j  visibility: name lookup across files goes through local_models (the files a model imports) — `all_models`
+              (everything the process / repository has loaded) is read only by repository management: outside
+              textx/scoping/__init__.py and textx/metamodel.py it is used only to *share* the store when a repository is
+              constructed (argument of GlobalModelRepository(...)), never iterated or searched.
+       C17.k  every file matched by an import pattern ends up in the import's list of loaded models: in
+              load_models_using_filepattern the append to the result list depends on no condition inside the loop.
+       C18.h  entries leave a repository only through ModelRepository.remove_model (which finds the entry by scanning for
+              the model, so models stored under synthetic keys are found): no other function deletes from
+              filename_to_model."""
+    import ast
+    from sa import sem
+    out = []; inst = 0
+    S = "textx/scoping/__init__.py"
+    for rel in ("textx/scoping/rrel.py", "textx/scoping/providers.py", "textx/scoping/tools.py", "textx/model.py"):
+        t = load(root, rel)
+        for n in ast.walk(t):
+            if isinstance(n, ast.Attribute) and n.attr == "all_models" and isinstance(n.ctx, ast.Load):
+                inst += 1
+                par = getattr(n, "_parent", None)
+                ok = isinstance(par, ast.Call) and callee_name(par) == "GlobalModelRepository" and any(a is n for a in par.args)
+                ob("C17", "C17.j", rel, qualname(n), " ".join(ast.unparse(stmt_of(n)).split())[:90], ok)
+                if not ok: out.append(Finding("C17", "C17.j", rel, qualname(n), " ".join(ast.unparse(stmt_of(n)).split())[:100], "names are looked up in all_models (every model of the repository) instead of the models this model imports (local_models): a reference binds to an element of a file that the referencing file does not import", witness="a imports b imports c; a name defined only in c referenced from a"))
+    t = load(root, S)
+    fp = find(t, "GlobalModelRepository.load_models_using_filepattern"); fi = sem.info(fp); inst += 1
+    loop = next((n for n in own_nodes(fp) if isinstance(n, ast.For) and "filenames" in ast.unparse(n.iter)), None)
+    if loop is None: raise AnalysisError("load_models_using_filepattern: loop over the matched files not found")
+    apps = [c for c in calls(loop) if callee_name(c) == "append"]
+    if not apps: raise AnalysisError("load_models_using_filepattern: result list append not found")
+    conds = [(g, pol) for c in apps for g, pol in fi.guards(c) if any(a is loop for a in ancestors(g))]
+    ob("C17", "C17.k", S, "GlobalModelRepository.load_models_using_filepattern", "every matched file is appended to the result", not conds)
+    if conds: out.append(Finding("C17", "C17.k", S, "GlobalModelRepository.load_models_using_filepattern", "append under %s%s" % ("" if conds[0][1] else "not ", " ".join(ast.unparse(conds[0][0]).split())[:70]), "a matched file is left out of the list of models loaded by this import under a condition: the import statement's _tx_loaded_models misses it and names behind the import are not found", witness="the same file imported twice, plainly and under a name (importAs)"))
+    for n in ast.walk(t):
+        tgt = None
+        if isinstance(n, ast.Delete):
+            tgt = next((x for x in n.targets if isinstance(x, ast.Subscript) and "filename_to_model" in ast.unparse(x.value)), None)
+        elif isinstance(n, ast.Call) and isinstance(n.func, ast.Attribute) and n.func.attr in ("pop", "popitem", "clear") and "filename_to_model" in ast.unparse(n.func.value): tgt = n
+        if tgt is None: continue
+        inst += 1
+        q = qualname(n); ok = q == "ModelRepository.remove_model"
+        for pr in ("C18", "C15"): ob(pr, "C18.h", S, q, " ".join(ast.unparse(n).split())[:80], ok)
+        if not ok:
+            for pr in ("C18", "C15"): out.append(Finding(pr, "C18.h", S, q, " ".join(ast.unparse(n).split())[:90], "repository entries are deleted outside ModelRepository.remove_model (which finds an entry by scanning for the model): a key recomputed from the model misses models stored under synthetic keys (string models: anonymous<i>), which then stay cached after a failed load", witness="global repository, model_from_str without file name, unknown reference"))
+    return inst, out
+
+def r_C18i(root):
+    """C18.i  ModelRepository.remove_model decided by evaluation (sa/pyeval.py) on a repository {f1: m1, f2: m2, anonymous0: m3}:
+       removing any one of the three models removes exactly its entry (whatever its position and key), removing a model
+       that is not stored changes nothing."""
+    import ast
+    from sa import pyeval
+    S = "textx/scoping/__init__.py"; out = []; inst = 0
+    fn = find_i(root, S, "ModelRepository.remove_model"); p0 = fn.args.args[1].arg
+    models = {"f1": {".name": "m1", "._tx_filename": "f1"}, "f2": {".name": "m2", "._tx_filename": "f2"}, "anonymous0": {".name": "m3", "._tx_filename": None}}
+    stranger = {".name": "m4", "._tx_filename": "f4"}
+    bad = None
+    for victim_key in ("f1", "f2", "anonymous0", None):
+        store = dict(models); victim = models[victim_key] if victim_key else stranger
+        env = {"self.filename_to_model": store, "self": {".filename_to_model": store}, p0: victim}
+        try: pyeval.run_block(fn.body, env)
+        except pyeval.Unsupported as e: raise AnalysisError("ModelRepository.remove_model: outside the evaluated subset: %s" % e)
+        except pyeval.Raised as e: bad = bad or (victim_key, "raises " + e.cls); continue
+        want = sorted(k for k in models if k != victim_key)
+        inst += 1
+        if sorted(store) != want and bad is None: bad = (victim_key, "leaves %s, expected %s" % (sorted(store), want))
+    for pr in ("C18", "C15", "C13", "C17"): ob(pr, "C18.i", S, "ModelRepository.remove_model", "remove_model evaluated on a three-entry repository for each entry and for a stranger", bad is None)
+    if bad:
+        for pr in ("C18", "C15", "C13", "C17"): out.append(Finding(pr, "C18.i", S, "ModelRepository.remove_model", "removing the model stored under %r" % (bad[0],), "remove_model %s: a model of a failed load stays cached (and is reused as 'already constructed' by the next load), or another model is evicted" % bad[1], witness="global repository with an earlier cached model; a load importing lib fails after lib was parsed; the next load imports lib again"))
+    return max(inst, 1), out
